@@ -163,7 +163,7 @@ CLAIMED = {
          'repeat the calls: same arguments, same text) is executed on the real code for every generated case with a fixed store. A table on the real code checks that the operative text is still produced and parses after a call that evaluated an unbound macro, and that a recorded reference survives the re-registration of its class.',
          BASE + 'Partial: the replay theorem is about the record as a store (reference-free values, every supplied value taken as representable); '
          'that the text of the record parses back to that store is C06/C02 and is checked by real replay. Calls failing on a missing REQUIRED are excluded from replay (DESIGN §7 D23). Values reference-free here.'),
- 'C08': ('Theorems inv_reachable / matching_spec / matching_nodup / getMatch_spec / getAll_spec / minimal_spec (the reported name is a '
+ 'C08': ('printed_reference_resolves (Props/C08c.lean): the name a stored reference is printed under resolves back after any history; Theorems inv_reachable / matching_spec / matching_nodup / getMatch_spec / getAll_spec / minimal_spec (the reported name is a '
          'non-empty suffix addressing exactly that entry, every shorter non-empty suffix addresses another entry) / minimal_resolves_back hold for every history of '
          'insertions, removals and clears and every query; the trie mirror is tied to gin/selector_map.py by running the same random '
          'operation histories on both; an independent naive set-of-names oracle (incl. minimal_selector resolve-back and minimality, '
